@@ -164,13 +164,18 @@ package basestore
 //@   requires dsHas(b.cache)[dsKey("_remoteHeads")] ==> headsWF(dsMap(b.cache)[dsKey("_remoteHeads")])
 //@   ghost lim := amount > 0 ? amount : ((b.options.MaxHistory != nil && deref(b.options.MaxHistory) > 0) ? deref(b.options.MaxHistory) : 0 - 1)
 //@   ghost L := b.oplog
+//@   ghost F0 := fetchCalls(0)
 //@   loop 1 invariant len(headsForEvent) == len(heads)
 //@   loop 2 noexit
+//@   loop 2 invariant @C15 @C05 fetchCalls(0) == F0 + $i
 //@   loop 2 invariant amount == lim && statusProgress(b.replicationStatus) <= statusMax(b.replicationStatus) && b.oplog == L
 //@   loop 2 invariant forall j Int :: 0 <= j && j < len(heads) ==> heads[j] != nil && heads[j].Clock != nil
 //@   assert @ before call ipfslog.NewFromEntryHash#1: @C15 amount == lim
 //@   assert @ after call ipfslog.NewFromEntryHash#1: @C15 $r1 == nil ==> fetchLen(boxptr($r0, "berty.tech/go-ipfs-log.IPFSLog")) == lim
 //@   assert @ before call wg.Add#1: @C15 @C05 @C01 len(heads) == max(len(localHeads), 0) + max(len(remoteHeads), 0) && (forall j Int :: 0 <= j && j < len(localHeads) ==> heads[j] == localHeads[j]) && (forall j Int :: 0 <= j && j < len(remoteHeads) ==> heads[max(len(localHeads), 0) + j] == remoteHeads[j])
+//@   assert @ before call wg.Add#1: @C05 @C01 dsHas(b.cache)[dsKey("_localHeads")] && !isnil(dsMap(b.cache)[dsKey("_localHeads")]) ==> len(localHeads) == len(headsDec(dsMap(b.cache)[dsKey("_localHeads")])) && (forall j Int :: 0 <= j && j < len(localHeads) ==> hs(boxptr(localHeads[j], "berty.tech/go-ipfs-log/entry.Entry")) == hs(headsDec(dsMap(b.cache)[dsKey("_localHeads")])[j]))
+//@   assert @ before call wg.Add#1: @C05 @C01 dsHas(b.cache)[dsKey("_remoteHeads")] && !isnil(dsMap(b.cache)[dsKey("_remoteHeads")]) ==> len(remoteHeads) == len(headsDec(dsMap(b.cache)[dsKey("_remoteHeads")])) && (forall j Int :: 0 <= j && j < len(remoteHeads) ==> hs(boxptr(remoteHeads[j], "berty.tech/go-ipfs-log/entry.Entry")) == hs(headsDec(dsMap(b.cache)[dsKey("_remoteHeads")])[j]))
+//@   assert @ after call oplog.Join#2: @C15 $r1 == nil ==> logLen(oplog) <= amount
 //@   assert @ before call oplog.Join#1: @C11 fetchedAll(boxptr(l, "berty.tech/go-ipfs-log.IPFSLog"))
 //@   assert @ before call oplog.Join#1: @C04 @C03 logID(boxptr(l, "berty.tech/go-ipfs-log.IPFSLog")) == logID(oplog) && acOf(boxptr(l, "berty.tech/go-ipfs-log.IPFSLog")) == b.access && prov(boxptr(l, "berty.tech/go-ipfs-log.IPFSLog")) != 0
 //@   assert @ before call b.emitters.evtReady.Emit#1: @C01 @C05 @C16 @C15 @C06 @C07 len(heads) > 0 ==> synced(b)
